@@ -653,7 +653,9 @@ class _BcryptBackend(_BcryptCommon):
         config = self._get_config(ident)
         if isinstance(config, str):
             config = config.encode("ascii")
-        hash = _bcrypt.hashpw(secret, config)
+        # NOTE: bcrypt only reads the first 72 bytes; bcrypt >= 5.0 raises
+        #       ValueError for longer input instead of ignoring the rest.
+        hash = _bcrypt.hashpw(secret[:72], config)
         assert isinstance(hash, bytes)
         if not hash.startswith(config) or len(hash) != len(config) + 31:
             raise uh.exc.CryptBackendError(
